@@ -22,6 +22,8 @@ CONFIGS = [  # id, name, defines, extra compiler flags
     (10, 'INTRINSICS_SWIZZLE', ['GLM_FORCE_INTRINSICS', 'GLM_FORCE_SWIZZLE'], ['-msse2']),
     (11, 'INTRINSICS_DEFAULT_ALIGNED', ['GLM_FORCE_INTRINSICS', 'GLM_FORCE_DEFAULT_ALIGNED_GENTYPES'], ['-msse2']),
     (12, 'INTRINSICS_ALIGNED_AVX', ['GLM_FORCE_INTRINSICS', 'GLM_FORCE_ALIGNED_GENTYPES'], ['-mavx']),
+    (13, 'WXYZ_INTRINSICS', ['GLM_FORCE_QUAT_DATA_WXYZ', 'GLM_FORCE_INTRINSICS'], ['-msse2']),
+    (14, 'WXYZ_INTRINSICS_DEFAULT_ALIGNED_AVX2', ['GLM_FORCE_QUAT_DATA_WXYZ', 'GLM_FORCE_INTRINSICS', 'GLM_FORCE_DEFAULT_ALIGNED_GENTYPES'], ['-mavx2']),
 ]
 TYPES = [('bool', 0), ('glm::int8', 0), ('glm::uint8', 0), ('glm::int16', 0), ('glm::uint16', 0), ('glm::int32', 0),
          ('glm::uint32', 0), ('glm::int64', 0), ('glm::uint64', 0), ('float', 1), ('double', 1)]
@@ -95,7 +97,7 @@ def main():
                 results[cfg[0]] = 'ERR ' + p.stderr[-1500:]; return
         p = subprocess.run([exe], capture_output=True, text=True)
         results[cfg[0]] = p.stdout if p.returncode == 0 else 'ERR run ' + p.stderr[-500:]
-    with ThreadPoolExecutor(max_workers=13) as ex: list(ex.map(one, CONFIGS))
+    with ThreadPoolExecutor(max_workers=15) as ex: list(ex.map(one, CONFIGS))
     with open(out, 'w') as f:
         for cid, name, defs, flags in CONFIGS:
             f.write('CFG %d %s\n' % (cid, name))
